@@ -151,5 +151,5 @@ if __name__ == "__main__":
     if cmd == "confirm":
         confirm(sys.argv[2:])
     elif cmd == "detect":
-        ids = sys.argv[2:] or sorted(os.path.basename(p) for p in glob.glob(f"{V}/seeded/C*_[mn]*"))
+        ids = sys.argv[2:] or sorted(os.path.basename(p) for p in glob.glob(f"{V}/seeded/C*_[mnp]*"))
         detect(ids, tier=os.environ.get("SEEDED_TIER", "quick"))
